@@ -4,7 +4,7 @@ from .. import gen as G
 from .common import TRUSTED, ASSUMPTIONS, default_nontrivial, LEVEL_NOTE, TECHNIQUE
 
 LEVEL = "proof"
-THEOREMS = ['C14_closed_form', 'C14_wf', 'C14_base_rate', 'C14_sum', 'C14_projection', 'C14_case1', 'C14_dogmatic', 'C14_nonneg', 'C14_swap_x', 'C14_swap_y', 'C14_tie', 'C14_K_eq_nine_branch', 'C14_eq_unnormalised']
+THEOREMS = ['C14_closed_form', 'C14_wf', 'C14_base_rate', 'C14_sum', 'C14_projection', 'C14_case1', 'C14_dogmatic', 'C14_nonneg', 'C14_swap_x', 'C14_swap_y', 'C14_tie', 'C14_K_eq_nine_branch', 'C14_eq_unnormalised', 'C14_masses_nonneg_gen']
 RULE = ("bdeduce / bdeduce_sym on the open domain 0<P(x)<1, 0<ax<1, 0<ay<1: 1/8 grid sample (exhaustive over antecedents x a "
         "sample of conditionals), random dyadic grids up to 1/64, dogmatic antecedents, conditionals whose beliefs/disbeliefs differ by 2^-10..2^-45, consequent base rates 2^-k and 1-2^-k (k up to 50), arbitrary floats; "
         "a DECIMAL-GRID stream (4000 per precision in the quick tier: antecedent vacuous / b = 0 / d = 0 / general with masses on the 0.1 and 0.01 "
@@ -12,7 +12,11 @@ RULE = ("bdeduce / bdeduce_sym on the open domain 0<P(x)<1, 0<ax<1, 0<ay<1: 1/8 
         "without zero components, absolute conditionals) and a SMALL-RATE stream (2000 per precision: rates log-uniform down to 1e-8 or that "
         "close to 1, conditionals that differ by 10^-k in belief and/or disbelief); f32+f64; the five "
         "tags I, II.A, II.B, III.A, III.B (case and active bound of min(ka,kb)) counted from the model's tag; results with an EXACT zero mass (antecedent and conditionals with b = 0 or d = 0, "
-        "absolute conditionals: the computed mass is 0 or a rounding residue on either side of 0, which must be accepted); variant `p` "
+        "absolute conditionals: the computed mass is 0 or a rounding residue on either side of 0, which must be accepted); a STRUCTURAL-ZERO stream "
+        "(3000 per precision in the quick tier: Case II / III with a non-zero correction term whose exact belief or disbelief is 0 -- b_x = 0 and b1 = 0, "
+        "d0 = 0 and d_x d1 = 0, mirrored in Case III -- on the 1/16, 1/32 grids and decimals) judged by the STRICT clause C14.masses_nonneg "
+        "(b >= 0, d >= 0, 0 <= u <= 1 exactly on every returned result whenever every operand mass is >= 0 exactly, 0 <= ax <= 1, 0 < ay < 1; "
+        "no condition on sums or on P(x); repair cf81fd9); variant `p` "
         "(x.projection() and the result's projection() as answered by the method, total probability on those); a panic on exactly "
         "well-formed operands is reported here (no hand-over to C19); on operands that are well-formed within the constructors' tolerance "
         "(4 eps: plain decimals) the clauses value / well-formed / base rate / total probability / symmetry are checked within their "
@@ -178,6 +182,73 @@ def _small_rate_case(rng, fmt):
     return x + c0 + c1 + [ay]
 
 
+def _struct_zero_case(rng, den):
+    """STRUCTURAL zeros in Case II / III (repair cf81fd9): the exact belief or disbelief of the result is 0 while the correction
+    term is NOT (u_x > 0, a clear difference between the conditionals), so the computed mass is `bi - ay*k` (`di - (1-ay)*k`)
+    with `bi = ay*k` exactly: two differently rounded evaluations of one product, a residue of either sign unless clamped.
+      Case II  (b0 > b1, d0 <= d1), K = ka (belief bound active):     b = b_x b0 + (d_x + u_x) b1          = 0  <=>  b_x = 0, b1 = 0
+      Case II,                      K = kb (disbelief bound active):  d = (b_x + u_x) d0 + d_x d1          = 0  <=>  d0 = 0, d_x d1 = 0
+      Case III (b0 <= b1, d0 > d1), K = ka:                           b = (b_x + u_x) b0 + d_x b1          = 0  <=>  b0 = 0, d_x b1 = 0
+      Case III,                     K = kb:                           d = b_x d0 + (d_x + u_x) d1          = 0  <=>  b_x = 0, d1 = 0
+    Which bound is active depends on the remaining free masses and the two rates; all four patterns are drawn, on the grid
+    1/den (16, 32: exactly well-formed operands; 10, 100: plain decimals, well-formed within the tolerance)."""
+    def comp(total, parts):
+        return G.composition(rng, total, parts)
+    while True:
+        pat = rng.randint(0, 3)
+        # antecedent
+        if pat in (0, 3):                       # b_x = 0
+            k = rng.randint(0, den - 1)         # d_x; u_x = den - k > 0
+            x = [0, k, den - k]
+        elif rng.random() < 0.5:                # d_x = 0 (patterns 1, 2 with the first alternative)
+            k = rng.randint(0, den - 1)
+            x = [k, 0, den - k]
+        else:
+            x = comp(den, 3)
+        if x[2] == 0:
+            continue
+        dx0 = x[1] == 0
+        if pat == 0:      # Case II: b1 = 0 < b0, d0 <= d1
+            b0 = rng.randint(1, den)
+            d0 = rng.randint(0, den - b0)
+            d1 = rng.randint(d0, den)
+            c0, c1 = [b0, d0, den - b0 - d0], [0, d1, den - d1]
+        elif pat == 1:    # Case II: d0 = 0, (d_x = 0 or d1 = 0), b0 > b1
+            b0 = rng.randint(1, den)
+            b1 = rng.randint(0, b0 - 1)
+            d1 = rng.randint(0, den - b1) if dx0 else 0
+            c0, c1 = [b0, 0, den - b0], [b1, d1, den - b1 - d1]
+        elif pat == 2:    # Case III: b0 = 0, (d_x = 0 or b1 = 0), d0 > d1
+            d0 = rng.randint(1, den)
+            d1 = rng.randint(0, d0 - 1)
+            b1 = rng.randint(0, den - d1) if dx0 else 0
+            c0, c1 = [0, d0, den - d0], [b1, d1, den - b1 - d1]
+        else:             # Case III: d1 = 0 < d0, b0 <= b1
+            d0 = rng.randint(1, den)
+            b0 = rng.randint(0, den - d0)
+            b1 = rng.randint(b0, den)
+            c0, c1 = [b0, d0, den - b0 - d0], [b1, 0, den - b1]
+        a = Fr(rng.randint(1, den - 1), den) if rng.random() < 0.8 else _dec_rate(rng)
+        ay = Fr(rng.randint(1, den - 1), den) if rng.random() < 0.8 else _dec_rate(rng)
+        xs = [Fr(v, den) for v in x]
+        px = xs[0] + a * xs[2]
+        if not (0 < px < 1):
+            continue
+        return xs + [a] + [Fr(v, den) for v in c0] + [Fr(v, den) for v in c1] + [ay]
+
+
+def struct_zero_stream(rng, fmt, n):
+    """`n` structural-zero cases as case lines (shared with C19): 1/16 and 1/32 grids and decimals"""
+    out = []
+    for _ in range(n):
+        sc = _struct_zero_case(rng, rng.choice([16, 16, 32, 32, 10, 10, 100]))
+        if rng.random() < 0.75:
+            out.append(G.line("bdeduce", fmt, rng.choice(["B.o", "B.o", "B.o.p"]), [], sc))
+        else:
+            out.append(G.line("bdeduce_sym", fmt, "B.o", [rng.randint(0, 1)], sc))
+    return out
+
+
 def decimal_streams(rng, fmt, n_dec, n_small):
     """the two streams as case lines (shared with C19)"""
     out = []
@@ -205,6 +276,7 @@ def cases(rng, tier):
     for fmt in ("f64", "f32"):
         N = 1500 if tier == "quick" else 60000
         out += decimal_streams(rng, fmt, 4000 if tier == "quick" else 60000, 2000 if tier == "quick" else 30000)
+        out += struct_zero_stream(rng, fmt, 3000 if tier == "quick" else 60000)
         for _ in range(N):
             den = rng.choice([8, 8, 16, 64])
             sc = _case(rng, den)
